@@ -85,13 +85,16 @@ Proof. vm_compute. reflexivity. Qed.
    closed marker with its name, with exactly the typed properties written on its open marker (as the
    property map of the attribute: a later value of a key replaces an earlier one) and the range of the
    text it enclosed.  Excluded by hypothesis: a property named trimwhitespace (it changes the text).
-   Still outside: self-closing and replacement markers, the character prefix, edge blanks - family
-   markupdoc. *)
+   Self-closing markers [name k=v .../] are items too ([P.self_marker]): each yields one attribute of
+   length 0 at its position, with its properties; hypothesis [P.selfs_ok]: no blank directly after a
+   self-closing marker (a self-closing marker standing at the start or after a blank trims one following
+   blank - that rule changes the text and is left to family markupdoc).
+   Still outside: replacement markers, the character prefix, edge blanks, the trimming rule. *)
 Require YS.Proofs.MarkupPropsProofs.
 Module P := YS.Proofs.MarkupPropsProofs.
 
 Theorem C13_document_with_properties_roundtrip : forall its,
-  Forall P.item_ok its ->
+  Forall P.item_ok its -> P.selfs_ok its [] ->
   forallb (fun c => negb (N.eqb c 58)) (P.text its) = true ->
   P.no_edge_space (P.text its) ->
   match P.enclosed its [] [] with
@@ -114,6 +117,9 @@ Proof. exact P.open_plain_ok. Qed.
 Theorem C13_shorthand_property_is_read : forall n v ps, P.name_ok n -> P.pv_ok v -> Forall P.prop_ok ps ->
   get_prop ((n, P.pv_value v) :: P.pvalues ps) (STR "trimwhitespace") = None -> P.item_ok (P.open_short n v ps).
 Proof. exact P.open_short_ok. Qed.
+Theorem C13_self_closing_marker_is_read : forall n ps, P.name_ok n -> Forall P.prop_ok ps ->
+  get_prop (P.pvalues ps) (STR "trimwhitespace") = None -> P.item_ok (P.self_marker n ps).
+Proof. exact P.self_marker_ok. Qed.
 Print Assumptions C13_written_properties_are_read.
 
 (* non-vacuity: [wave=3 loud=true who="Zoé" kind=big]x[b n=12]y[/wave]z[/b] - the written values come
@@ -136,3 +142,12 @@ Proof. split; vm_compute; reflexivity. Qed.
 (* a decimal value meets the hypothesis on values (D15: p=1.05 is 1.05, not 1.5) *)
 Example C13_decimal_value_ok : P.pv_ok (P.PVDec (STR "1") (STR "05")).
 Proof. cbn [P.pv_ok]. repeat split; try discriminate; try reflexivity. Qed.
+
+(* a self-closing marker between texts: one attribute of length 0 where it stands *)
+Definition ex_sdoc : list P.item :=
+  [P.IText (STR "ab"); P.self_marker (STR "pause") [(STR "ms", P.PVInt (STR "250"))]; P.IText (STR "cd")].
+Example C13_self_closing_example :
+  P.selfs_ok ex_sdoc [] /\
+  option_map (fun r => (fst r, map (fun a => (aname a, apos a, alen a, aprops a)) (snd r))) (parse_markup (P.render ex_sdoc))
+  = Some (STR "abcd", [(STR "pause", 2, 0, [(STR "ms", MInt 250)])]%Z).
+Proof. split; [split; [reflexivity|exact I]|vm_compute; reflexivity]. Qed.
